@@ -57,6 +57,14 @@ def extra_families():
     c = {'name': 'C', 'bases': ['B'], 'params': [('x', 'int'), ('d_e', 'str', 'q'), ('y_z', 'int', 3)]}
     fam.append(('inherit-sweeten', {'classes': B + [a, bb, c], 'root': ('list', ('cls', 'A'))},
                 lambda b: [[b.classes['A'](1), b.classes['B'](2, 'w', 4), b.classes['C'](3)]]))
+    # non-idempotent sweeteners on some levels of a chain only: an inherited hook must not run again for a subclass
+    h = [{'name': 'H0', 'params': [('x', 'int')], 'hooks': {'sweeten': [('stamp', 'w_H0')]}},
+         {'name': 'H1', 'bases': ['H0'], 'params': [('x', 'int'), ('y', 'int', 2)]},
+         {'name': 'H2', 'bases': ['H1'], 'params': [('x', 'int'), ('y', 'int', 2)], 'hooks': {'sweeten': [('stamp', 'w_H2')]}},
+         {'name': 'H3', 'bases': ['H2'], 'params': [('x', 'int'), ('y', 'int', 2)]}]
+    fam.append(('inherit-sweeten-once', {'classes': B + h, 'root': ('list', ('cls', 'H0'))},
+                lambda b: [[b.classes['H0'](1), b.classes['H1'](2), b.classes['H2'](3, 4), b.classes['H3'](5)],
+                           [b.classes['H3'](6, 7)], [b.classes['H1'](8, 9)]]))
     fam.append(('order', {'classes': B + [K([('z', 'int'), ('a', 'int'), ('m', ('dict', 'str', 'int'))], extra=True)], 'root': ('cls', 'K')},
                 lambda b: [b.classes['K'](1, 2, collections.OrderedDict([('q', 1), ('b', 2), ('a', 3)]),
                                           collections.OrderedDict([('y', 1), ('c', 2)]))]))
